@@ -1,0 +1,74 @@
+/*
+ * Copyright 2025 The RuleGo Authors.
+ *
+ * Licensed under the Apache License, Version 2.0 (the "License");
+ * you may not use this file except in compliance with the License.
+ * You may obtain a copy of the License at
+ *
+ *     http://www.apache.org/licenses/LICENSE-2.0
+ *
+ * Unless required by applicable law or agreed to in writing, software
+ * distributed under the License is distributed on an "AS IS" BASIS,
+ * WITHOUT WARRANTIES OR CONDITIONS OF ANY KIND, either express or implied.
+ * See the License for the specific language governing permissions and
+ * limitations under the License.
+ */
+
+package e2e
+
+import (
+	"strings"
+	"testing"
+	"time"
+
+	"github.com/rulego/streamsql"
+	"github.com/stretchr/testify/assert"
+	"github.com/stretchr/testify/require"
+)
+
+// runHavingParam runs sql over four rows of group "b" (v = 1, 2, 3, 10) and
+// returns the results delivered, none when HAVING rejects the group.
+func runHavingParam(t *testing.T, sql string) []map[string]any {
+	t.Helper()
+	ssql := streamsql.New()
+	defer ssql.Stop()
+	require.NoError(t, ssql.Execute(sql))
+
+	ch := make(chan []map[string]any, 4)
+	ssql.AddSink(func(results []map[string]any) { ch <- results })
+	for _, v := range []int{1, 2, 3, 10} {
+		ssql.Emit(map[string]any{"k": "b", "v": v})
+	}
+	select {
+	case res := <-ch:
+		return res
+	case <-time.After(500 * time.Millisecond):
+		return nil
+	}
+}
+
+// TestHaving_ParameterisedAggregateNotSelected: an aggregate that HAVING refers to
+// without selecting it is computed with its extra argument, like the same call
+// in the SELECT list.
+func TestHaving_ParameterisedAggregateNotSelected(t *testing.T) {
+	t.Parallel()
+	for _, win := range []string{"CountingWindow(4)", "GLOBAL WINDOW TRIGGER WHEN count(*) >= 4"} {
+		query := "SELECT k, count(*) AS c FROM stream GROUP BY k, " + win + " HAVING "
+		for _, having := range []string{
+			"percentile(v, 0) = 1",
+			"percentile(v, 1) > 5",
+			"PERCENTILE(v, 0.5) = 2 AND percentile(v*2, 1) = 20 AND sum(v) = 16",
+			"percentile(v, 0) + 1 = 2",
+		} {
+			res := runHavingParam(t, query+having)
+			require.Len(t, res, 1, win+" HAVING "+having)
+			assert.EqualValues(t, 4, res[0]["c"])
+			for name := range res[0] {
+				assert.False(t, strings.HasPrefix(name, "__"), "internal column %s is delivered", name)
+			}
+		}
+		for _, having := range []string{"percentile(v, 0) > 1", "percentile(v, 1) < 10"} {
+			assert.Empty(t, runHavingParam(t, query+having), win+" HAVING "+having)
+		}
+	}
+}
